@@ -278,6 +278,23 @@ func clSkiplistNextAdvancesOnce(c *Ctx) {
 	p := c.P
 	fn := p.Func("skiplist", "Iterator", "Next")
 	fi := p.Info(fn)
+	// the periodic cursor refresh is decided on the step count AFTER this step was counted
+	if fCount := p.FieldOpt("skiplist", "Iterator", "count"); fCount != nil {
+		for _, in := range fi.Instrs {
+			b, ok := in.(*ssa.BinOp)
+			if !ok || b.Op != token.REM || !loadsField(fCount)(b.X) {
+				continue
+			}
+			ld := strip(b.X).(ssa.Instruction)
+			counted := false
+			for _, st := range p.storesTo(fn, fCount) {
+				if add, isAdd := strip(st.Val).(*ssa.BinOp); isAdd && add.Op == token.ADD && fi.Dominates(st, ld) {
+					counted = true
+				}
+			}
+			c.Check(counted, fn, in, "the step is counted before the refresh interval is tested", "a fresh cursor (count 0) refreshes on its very first step: the key-only re-seek throws it back to the oldest version of the key it just reached, which may already have been returned")
+		}
+	}
 	fCurr := p.Field("skiplist", "Iterator", "curr")
 	getNext := p.Func("skiplist", "Node", "getNext")
 	// G: the examination of the current node
